@@ -128,6 +128,32 @@ def wm_ranks(sim):
     return F, ranks
 
 
+def wm_ranks_fast(sim):
+    """The same pairwise definition as wm_ranks for large sizes, counted on sorted copies (comparisons of
+    binary64 values are exact): ({(i, j): 2 m^2 F_ij as an integer}, ranks)."""
+    from bisect import bisect_left, bisect_right
+    n, m = len(sim), len(sim[0])
+    srt = [sorted(r) for r in sim]
+    F2 = {}
+    for i in range(n):
+        for j in range(i + 1, n):
+            sj = srt[j]
+            tot2 = 0
+            for a in sim[i]:
+                lo, hi = bisect_left(sj, a), bisect_right(sj, a)
+                tot2 += 2 * lo + (hi - lo)          # members of j below a count 1, equal to a count 1/2
+            F2[(i, j)] = tot2
+            F2[(j, i)] = 2 * m * m - tot2
+    ranks = [Fr(1)] * n
+    for (i, j), f2 in F2.items():
+        ranks[i] += 1 if f2 > m * m else (Fr(1, 2) if f2 == m * m else 0)
+    return F2, ranks
+
+
+SMALL_SIZES = (1, 2, 3)
+ENS_MODES = ["ties", "heavy", "spread", "identical", "ordered", "blocks"]
+
+
 def cvm_exact(data):
     n = len(data)
     xs = sorted(Fr(x) for x in data)
@@ -142,6 +168,23 @@ def ad_textbook(data):
 
 
 # ----------------------------------------------------------------------------
+# every call of the implementation goes through `guarded`: an exception on an input inside the
+# property's quantifier is a violation with a key of its own and the input in the replay
+# (.../valid-input-rejected, .../valid-sample-rejected, .../<type>-raised), and the run continues
+
+def guarded(f, *a, **k):
+    """(result of f, None), or (None, 'ExceptionType: message') when the call raises"""
+    try:
+        with np.errstate(all="ignore"):
+            return f(*a, **k), None
+    except Exception as e:          # noqa: BLE001 - whatever the implementation raises
+        return None, f"{type(e).__name__}: {str(e)[:160]}"
+
+
+def two_floats(f, *a, **k):
+    """the (statistic, p-value) pair returned by a uniformity test, as two Python floats"""
+    s, p = f(*a, **k)
+    return float(s), float(p)
 
 
 # ----------------------------------------------------------------------------
@@ -406,7 +449,7 @@ def scalar_repr(rng, v):
     return float(v), "float"
 
 
-def d_exact(obs, sim):
+def d_exact(obs, sim, franks=None):
     """The score from the property's definition: (Pearson correlation of the observation ranks with
     the Weigel-Mason forecast ranks + 1) / 2.  None when it is not determined by the property: tied
     observations / tied single-member forecasts (argsort tie-breaking) or all forecasts tied (0/0)."""
@@ -420,7 +463,7 @@ def d_exact(obs, sim):
         sc = sorted(col)
         fr = [Fr(sc.index(v)) for v in col]
     else:
-        _, fr = wm_ranks(sim)
+        fr = franks if franks is not None else wm_ranks(sim)[1]
     so = sorted(obs)
     orr = [Fr(so.index(v)) for v in obs]
     mo, mf = sum(orr) / n, sum(fr) / n
@@ -480,7 +523,9 @@ def pit_clauses(obs, ens, censor, random, cst, out, ladder):
 def representation_and_history_checks(ctx, metrics, c_hydrodiy_stat, fail, gen_unit_sample):
     """Section 6 of the check (see the comment above INDEX_KINDS)."""
     rng = ctx.rng
-    TOLERATED = (TypeError, AttributeError, ValueError, IndexError, KeyError)
+    # whatever the implementation raises (AssertionError of the kernel wrappers, ZeroDivisionError,
+    # FloatingPointError, OverflowError, MemoryError ... included): judged at the call site, the run continues
+    TOLERATED = (Exception,)
     notes = ctx.notes
 
     def note(name, example):
@@ -944,11 +989,11 @@ def representation_and_history_checks(ctx, metrics, c_hydrodiy_stat, fail, gen_u
                 cm.mark(replay)
                 try:
                     pits, sudo = quiet(metrics.pit, oo, ee, random=random, cst=cst, censor=censor)
+                    out = ([float(v) for v in pits], [bool(b) for b in sudo])
                 except TOLERATED as e:
                     fail(None, "C10/pit/valid-input-rejected", f"pit raised {type(e).__name__}: {str(e)[:120]} at "
                          f"step {len(hist)} of a sequence of calls on the same arrays", replay)
                     return
-                out = ([float(v) for v in pits], [bool(b) for b in sudo])
                 hist[-1]["result"] = out
                 bad = pit_clauses(vo, ve, censor, random, cst, out, lad)
                 if bad:
@@ -966,11 +1011,11 @@ def representation_and_history_checks(ctx, metrics, c_hydrodiy_stat, fail, gen_u
                 cm.mark(replay)
                 try:
                     st, pv, sudo = quiet(metrics.alpha, O, E, type=typ)
+                    pv, flags = float(pv), [bool(b) for b in sudo]
                 except TOLERATED as e:
                     fail(None, f"C10/alpha/{typ}-raised", f"alpha(type={typ}) raised {type(e).__name__}: "
                          f"{str(e)[:120]} at step {len(hist)} of a sequence of calls on the same arrays", replay)
                     return
-                pv, flags = float(pv), [bool(b) for b in sudo]
                 hist[-1]["result"] = [pv, flags]
                 if not (0.0 <= pv <= 1.0):
                     fail(None, f"C10/alpha/{typ}-pvalue-out-of-range", f"alpha(type={typ}) p-value {pv!r} at step "
@@ -1042,6 +1087,11 @@ def run(ctx):
         "(calls in any order / twice / through reversed views / the observations as single-member forecasts, in-place "
         "rewrites between calls, returned PIT arrays passed on to the uniformity tests): every call judged on the "
         "values written, every returned array keeps its values; "
+        "size classes on every run: 1,2,3 forecasts x 1,2,3 members (dscore 2,3,4) for ensrank / dscore / pit / alpha "
+        "(obs also as an [n,1] column for n >= 2), samples of 1,2,3 values for CvM / AD, every bad value at every "
+        "position of 1,2,3 (7, 32, ~80) values; large end: ensrank 150x1..2x1000, dscore 150x1..40x5, pit / alpha "
+        "300x3, 2x400, 40x40, sample sizes at / between / past the columns of the CvM table; every call of the "
+        "implementation guarded: an exception on an input inside the quantifier is a violation with its input; "
         "non-trivial = distinct (kind, size class, branch) signature")
     ctx.trusted = cm.STD_TRUST + [
         "glibc qsort is a stable merge sort (c_dscore.c relies on it); modelled as a stable insertion sort, "
@@ -1095,13 +1145,23 @@ def run(ctx):
         fm = np.zeros((n, n), dtype=np.float64)
         rk = np.zeros(n, dtype=np.float64)
         cm.mark({"call": "c_hydrodiy_stat.ensrank", "eps": eps, "sim": sim})
-        code = int(c_hydrodiy_stat.ensrank(float(eps), a, fm, rk))
-        return code, fm, rk
+        code, err = guarded(lambda: int(c_hydrodiy_stat.ensrank(float(eps), a, fm, rk)))
+        return code, fm, rk, err
 
     def do_ensrank(eps, sim, mode):
         n = len(sim)
         m = len(sim[0]) if sim else 0
-        code, fm, rk = call_ensrank(eps, sim)
+        code, fm, rk, err = call_ensrank(eps, sim)
+        if err is not None:
+            # no return code: nothing to compare the model with
+            rp = {"call": "c_hydrodiy_stat.ensrank", "eps": eps, "sim": sim, "raised": err}
+            ctx.count(("ensrank-raises", min(n, 4), min(m, 4), mode))
+            if not math.isnan(eps) and eps >= 1e-20 and n > 0 and m > 0:
+                fail(None, "C10/ensrank/valid-input-rejected",
+                     f"ensrank raised {err} for eps={eps}, {n} forecasts x {m} members", rp)
+            else:
+                ctx.notes.setdefault("ensrank_raises_outside_the_quantifier", []).append(rp)
+            return
         fs = [float(fm[i, j]) for i in range(n) for j in range(i + 1, n)] if code == 0 else []
         ranks = [float(x) for x in rk] if code == 0 else []
         idx = add(f"CEns {fl(eps)} {fmat(sim)} {cm.coq_z(code)} {flist(fs)} {flist(ranks)}",
@@ -1129,10 +1189,14 @@ def run(ctx):
     def do_large(m):
         """two ensembles of m members whose comparison is one half-step 1/(2 m^2) below a tie"""
         sim = [[0.0] * (m - 1) + [1.0], [0.0] * (m - 1) + [2.0]]
-        code, fm, rk = call_ensrank(1e-6, sim)
+        code, fm, rk, err = call_ensrank(1e-6, sim)
         ctx.count(("ensrank-large-ensemble", m))
         rp = {"call": "c_hydrodiy_stat.ensrank", "eps": 1e-6, "m": m,
               "sim_recipe": "sim = [[0.0]*(m-1)+[1.0], [0.0]*(m-1)+[2.0]]"}
+        if err is not None:
+            fail(None, "C10/ensrank/valid-input-rejected", f"ensrank raised {err} for 2 forecasts x {m} members",
+                 dict(rp, raised=err))
+            return
         # exact pairwise comparison: the (m-1)^2 tied pairs count 1/2, the m-1 pairs (1 vs 0) count 1
         Fx = (Fr((m - 1) * (m - 1), 2) + (m - 1)) / (m * m)
         want = [Fr(1), Fr(2)]
@@ -1156,37 +1220,51 @@ def run(ctx):
     for rp in stored:
         ctx.count(("stored-replay", rp.get("call")))
         try:
-            if rp["call"] == "c_hydrodiy_stat.ensrank" and "m" in rp:
+            call = rp["call"]
+            if call == "c_hydrodiy_stat.ensrank" and "m" in rp:
                 do_large(int(rp["m"]))
-            elif rp["call"] == "c_hydrodiy_stat.ensrank":
-                do_ensrank(rp["eps"], rp["sim"], "stored")
-            elif rp["call"] == "metrics.anderson_darling_test":
-                a, pa = metrics.anderson_darling_test(np.array(rp["data"], dtype=np.float64))
-                if not (0.0 <= float(pa) <= 1.0):
+            elif call == "c_hydrodiy_stat.ensrank":
+                do_ensrank(float(rp["eps"]), [[float(v) for v in r] for r in rp["sim"]], "stored")
+            elif call == "metrics.anderson_darling_test":
+                data = [float(v) for v in rp["data"]]
+                if not all(0.0 < v < 1.0 for v in data):
+                    continue
+                r, err = guarded(two_floats, metrics.anderson_darling_test, np.array(data, dtype=np.float64))
+                if err is not None:
+                    fail(None, "C10/ad/valid-sample-rejected",
+                         f"anderson_darling_test raised {err} on {len(data)} values in (0,1)", dict(rp, raised=err))
+                elif not (0.0 <= r[1] <= 1.0):
                     fail(None, "C10/ad/pvalue-out-of-range",
-                         f"AD p-value {float(pa)!r} (n={len(rp['data'])}, statistic {float(a)!r})",
-                         dict(rp, stat=float(a), pvalue=float(pa)))
-            elif rp["call"] == "metrics.pit":
-                pits, _ = metrics.pit(np.array(rp["obs"]), np.array(rp["ens"]), random=rp["random"],
-                                      cst=rp["cst"], censor=rp["censor"])
-                if not all(0.0 <= float(v) <= 1.0 for v in pits):
+                         f"AD p-value {r[1]!r} (n={len(data)}, statistic {r[0]!r})",
+                         dict(rp, stat=r[0], pvalue=r[1]))
+            elif call == "metrics.pit" and "obs" in rp:
+                args = (np.array(rp["obs"], dtype=np.float64), np.array(rp["ens"], dtype=np.float64))
+                opts = dict(random=bool(rp["random"]), cst=float(rp["cst"]), censor=float(rp["censor"]))
+                r, err = guarded(lambda: [float(v) for v in metrics.pit(*args, **opts)[0]])
+                if err is not None:
+                    fail(None, "C10/pit/valid-input-rejected", f"pit raised {err} on valid data", dict(rp, raised=err))
+                elif not all(0.0 <= v <= 1.0 for v in r):
                     fail(None, "C10/pit/out-of-range",
-                         f"PIT={[float(v) for v in pits]!r} not in [0,1] (random={rp['random']}, "
-                         f"{len(rp['ens'][0])} members)", rp)
-            elif rp["call"] == "metrics.dscore" and rp.get("map") in MAPS:
-                d1 = float(metrics.dscore(np.array(rp["obs"]), np.array(rp["sim"]), eps=rp["eps"]))
-                gs = [[MAPS[rp["map"]](v) for v in row] for row in rp["sim"]]
-                d2 = float(metrics.dscore(np.array(rp["obs"]), np.array(gs), eps=rp["eps"]))
-                if not abs(d1 - d2) <= 1e-12:
+                         f"PIT={r!r} not in [0,1] (random={rp['random']}, {len(rp['ens'][0])} members)", rp)
+            elif call == "metrics.dscore" and rp.get("map") in MAPS:
+                obs = np.array(rp["obs"], dtype=np.float64)
+                eps = float(rp["eps"])
+                gs = [[MAPS[rp["map"]](float(v)) for v in row] for row in rp["sim"]]
+                d1, err1 = guarded(lambda: float(metrics.dscore(obs, np.array(rp["sim"], dtype=np.float64), eps=eps)))
+                d2, err2 = guarded(lambda: float(metrics.dscore(obs, np.array(gs, dtype=np.float64), eps=eps)))
+                if err1 is not None or err2 is not None:
+                    fail(None, "C10/dscore/valid-input-rejected", f"dscore raised {err1 or err2} on "
+                         f"{len(rp['obs'])} forecasts x {len(rp['sim'][0])} members", dict(rp, raised=err1 or err2))
+                elif not abs(d1 - d2) <= 1e-12:
                     fail(None, "C10/dscore/forecast-rescaling",
                          f"dscore changes from {d1!r} to {d2!r} under the increasing map {rp['map']} "
                          "of the forecasts", rp)
-        except (KeyError, TypeError, ValueError) as e:
-            ctx.notes.setdefault("stored_replay_errors", []).append(f"{rp.get('call')}: {e}")
-    for it in range(ctx.scale(260, 4000)):
-        n = rng.choice([1, 2, 2, 3, 4, rng.randint(2, nmax)])
-        m = rng.choice([1, 1, 2, 3, rng.randint(1, mmax)])
-        sim, mode = gen_ensembles(rng, n, m)
+        except (KeyError, TypeError, ValueError, IndexError, OverflowError) as e:
+            # a stored entry that is not in the expected format (the implementation is called through
+            # `guarded`: what IT raises is reported above)
+            ctx.notes.setdefault("stored_replay_errors", []).append(f"{rp.get('call')}: {type(e).__name__}: {e}")
+    def ensrank_case(n, m, mode=None):
+        sim, mode = gen_ensembles(rng, n, m, mode)
         eps = rng.choice([1e-6, 1e-6, 1e-9, 1e-8, 1e-4, 1e-3, 1e-19])
         r = rng.random()
         if r < 0.08:
@@ -1199,6 +1277,48 @@ def run(ctx):
             sim = [[v * 2.0 ** 62 for v in row] for row in sim]
             mode += "+large"
         do_ensrank(eps, sim, mode)
+
+    def ensrank_big(n, m):
+        """the large end of the quantifier (many forecasts / many members): oracle only, the pairwise
+        definition counted on sorted copies"""
+        sim, mode = gen_ensembles(rng, n, m, rng.choice([k for k in ENS_MODES if k != "spread" or n * m <= 8000]))
+        eps = rng.choice([1e-6, 1e-8, 1e-4])
+        code, fm, rk, err = call_ensrank(eps, sim)
+        ctx.count(("ensrank-big", n, m, mode))
+        rp = {"call": "c_hydrodiy_stat.ensrank", "eps": eps, "sim": sim, "input_class": "large sizes"}
+        if err is not None or code != 0:
+            fail(None, "C10/ensrank/valid-input-rejected",
+                 f"ensrank {'raised ' + err if err is not None else 'returned ' + str(code)} for eps={eps}, "
+                 f"{n} forecasts x {m} members", dict(rp, raised=err, code=code))
+            return
+        F2, wr = wm_ranks_fast(sim)
+        got = [float(v) for v in rk]
+        for (i, j), f2 in F2.items():
+            if i < j and not abs(Fr(float(fm[i, j])) - Fr(f2, 2 * m * m)) <= Fr(1, 10 ** 9):
+                fail(None, "C10/ensrank/fmat-not-midrank",
+                     f"fmat[{i},{j}]={float(fm[i, j])!r}, pairwise mid-rank comparison gives "
+                     f"{float(Fr(f2, 2 * m * m))!r} ({n} forecasts x {m} members, eps={eps})", rp)
+                return
+        if any(math.isnan(a) or Fr(a) != b for a, b in zip(got, wr)):
+            k = [i for i, (a, b) in enumerate(zip(got, wr)) if math.isnan(a) or Fr(a) != b][0]
+            fail(None, "C10/ensrank/ranks-not-weigel-mason",
+                 f"rank of forecast {k} = {got[k]!r}, Weigel-Mason rank {float(wr[k])!r} "
+                 f"({n} forecasts x {m} members, eps={eps})", dict(rp, ranks=got))
+
+    # the small end of the quantifier on every run: 1, 2, 3 forecasts x 1, 2, 3 members, every tie pattern
+    for n in SMALL_SIZES:
+        for m in SMALL_SIZES:
+            for mode in ENS_MODES:
+                for _ in range(ctx.scale(1, 4)):
+                    ensrank_case(n, m, mode)
+    for it in range(ctx.scale(260, 4000)):
+        n = rng.choice([1, 2, 2, 3, 4, rng.randint(2, nmax)])
+        m = rng.choice([1, 1, 2, 3, rng.randint(1, mmax)])
+        ensrank_case(n, m)
+    # the large end: many forecasts, many members (general tie patterns; do_large below is one recipe)
+    for n, m in [(150, 1), (120, 2), (40, 7), (5, 129), (3, 300), (2, 1000)] + \
+            ([(400, 2), (300, 1), (60, 16), (7, 500), (3, 3000), (2, 8000)] if thorough else []):
+        ensrank_big(n, m)
     # very large ensembles: the smallest gap of F from 1/2 is 1/(2 m^2)
     # 46341 = first m with m*(m+1) > INT_MAX: an integer rank-sum formula overflows there (seeded C10-m1)
     for m in (7071, 7072, 9973, 46340, 46341, 65537):
@@ -1210,37 +1330,36 @@ def run(ctx):
 
     # ------------------------------------------------------------------
     # 2. dscore: correspondence (distinct observations) + range / extremes / invariances
-    def call_dscore(obs, sim, eps):
-        cm.mark({"call": "metrics.dscore", "obs": obs, "sim": sim, "eps": eps})
-        with np.errstate(all="ignore"):
-            return float(metrics.dscore(np.array(obs, dtype=np.float64),
-                                        np.array(sim, dtype=np.float64), eps=eps))
+    def call_dscore(obs, sim, eps, why=""):
+        """the score, or None (reported) when the implementation raises: every caller passes n >= 2
+        forecasts of m >= 1 finite members, exactly tied or separated by more than the tolerance"""
+        rp = {"call": "metrics.dscore", "obs": obs, "sim": sim, "eps": eps}
+        cm.mark(rp)
+        d, err = guarded(lambda: float(metrics.dscore(np.array(obs, dtype=np.float64),
+                                                      np.array(sim, dtype=np.float64), eps=eps)))
+        if err is not None:
+            fail(None, "C10/dscore/valid-input-rejected",
+                 f"dscore raised {err} on {len(sim)} forecasts x {len(sim[0])} members{why}", dict(rp, raised=err))
+        return d
 
-    def franks_constant(sim, eps):
-        """True when every forecast gets the same rank (the correlation is then undefined)."""
-        if len(sim[0]) == 1:
-            return False
-        _, wr = wm_ranks(sim)
-        return len(set(wr)) == 1
-
-    for it in range(ctx.scale(220, 3500)):
-        n = rng.choice([2, 2, 3, 4, 5, rng.randint(2, nmax)])
-        m = rng.choice([1, 2, 3, rng.randint(1, mmax)])
+    def dscore_case(n, m, style=None):
+        """style: None = drawn; "perfect" / "inverse" = forecasts ordering distinct observations perfectly /
+        inversely; "plain" = distinct observations, forecasts as generated"""
         sim, mode = gen_ensembles(rng, n, m)
-        tied_obs = rng.random() < 0.25
+        tied_obs = rng.random() < 0.25 and style is None
         if tied_obs:
             obs = [rng.randint(0, max(1, n // 2)) * 0.5 for _ in range(n)]
         else:
-            obs = [k * 0.25 for k in rng.sample(range(-60, 60), n)]
+            obs = [k * 0.25 for k in rng.sample(range(-max(60, n), max(60, n)), n)]
         eps = rng.choice([1e-6, 1e-6, 1e-8, 1e-4])
         single_tied = (m == 1 and len(set(r[0] for r in sim)) < n)
         if m == 1 and rng.random() < 0.5:
             # single-member forecasts without ties
-            ks = rng.sample(range(-50, 50), n)
+            ks = rng.sample(range(-max(50, n), max(50, n)), n)
             sim = [[k * 0.5] for k in ks]
             single_tied = False
         extreme = None
-        r = rng.random()
+        r = {None: rng.random(), "perfect": 0.05, "inverse": 0.15, "plain": 0.9}[style]
         if not tied_obs and r < 0.2:
             # forecasts ordering the observations perfectly / inversely
             sign = 1 if r < 0.1 else -1
@@ -1251,8 +1370,12 @@ def run(ctx):
             extreme = sign
             single_tied = False
         d = call_dscore(obs, sim, eps)
+        if d is None:
+            ctx.count(("dscore-raises", min(n, 4), min(m, 3), mode))
+            return
         replay = {"call": "metrics.dscore", "obs": obs, "sim": sim, "eps": eps, "D": d}
-        const = franks_constant(sim, eps)
+        wr = wm_ranks(sim)[1] if m > 1 else None
+        const = m > 1 and len(set(wr)) == 1    # every forecast gets the same rank: correlation undefined
         if not tied_obs and not single_tied:
             idx = add(f"CDscore {fl(eps)} {flist(obs)} {fmat(sim)} {fl(d)}", replay,
                       ("dscore", min(n, 4), min(m, 3), mode, extreme, const))
@@ -1260,10 +1383,18 @@ def run(ctx):
             idx = None
             ctx.count(("dscore-oracle-only", min(n, 4), min(m, 3), tied_obs, single_tied))
         if const:
-            continue            # all forecasts tied: the rank correlation is undefined (0/0)
+            return              # all forecasts tied: the rank correlation is undefined (0/0)
         if not (0.0 <= d <= 1.0):
             fail(idx, "C10/dscore/out-of-range", f"dscore={d!r} not in [0,1] (obs={obs}, sim={sim})", replay)
-            continue
+            return
+        # the score itself, where the property determines it (distinct observations, no tied
+        # single-member forecasts): rank correlation with the Weigel-Mason ranks, exact rationals
+        want = d_exact(obs, sim, wr)
+        if want is not None and not abs(d - want) <= 1e-9:
+            fail(idx, "C10/dscore/not-the-rank-correlation",
+                 f"dscore={d!r}, but (correlation of the observation ranks with the Weigel-Mason forecast ranks "
+                 f"+ 1)/2 = {want!r} ({n} forecasts x {m} members)", replay)
+            return
         if extreme == 1 and abs(d - 1.0) > 1e-9:
             fail(idx, "C10/dscore/perfect-order-not-one", f"dscore={d!r} for perfectly ordered forecasts", replay)
         if extreme == -1 and abs(d) > 1e-9:
@@ -1277,15 +1408,15 @@ def run(ctx):
             gs = [[g(v) for v in row] for row in sim]
             if separated([v for row in gs for v in row], tol) and \
                     len(set(v for row in gs for v in row)) == len(set(allv)):
-                d2 = call_dscore(obs, gs, eps)
-                if not abs(d2 - d) <= 1e-12:
+                d2 = call_dscore(obs, gs, eps, f" (forecasts mapped by {name})")
+                if d2 is not None and not abs(d2 - d) <= 1e-12:
                     fail(idx, "C10/dscore/forecast-rescaling",
                          f"dscore changes from {d!r} to {d2!r} under the increasing map {name} of the forecasts",
                          dict(replay, map=name))
             go = [g(v) for v in obs]
             if len(set(go)) == len(set(obs)):
-                d3 = call_dscore(go, sim, eps)
-                if not abs(d3 - d) <= 1e-12:
+                d3 = call_dscore(go, sim, eps, f" (observations mapped by {name})")
+                if d3 is not None and not abs(d3 - d) <= 1e-12:
                     fail(idx, "C10/dscore/observation-rescaling",
                          f"dscore changes from {d!r} to {d3!r} under the increasing map {name} of the observations",
                          dict(replay, map=name))
@@ -1295,32 +1426,46 @@ def run(ctx):
                 row = list(row)
                 rng.shuffle(row)
                 ps.append(row)
-            d4 = call_dscore(obs, ps, eps)
-            if not abs(d4 - d) <= 1e-12:
+            d4 = call_dscore(obs, ps, eps, " (members permuted)")
+            if d4 is not None and not abs(d4 - d) <= 1e-12:
                 fail(idx, "C10/dscore/member-permutation",
                      f"dscore changes from {d!r} to {d4!r} when ensemble members are permuted",
                      dict(replay, permuted=ps))
 
+    # the small end of the quantifier on every run: 2, 3, 4 forecasts x 1, 2, 3 members
+    for n in (2, 3, 4):
+        for m in SMALL_SIZES:
+            for style in ("perfect", "inverse", "plain", "plain", None, None):
+                for _ in range(ctx.scale(1, 4)):
+                    dscore_case(n, m, style)
+    for it in range(ctx.scale(220, 3500)):
+        n = rng.choice([2, 2, 3, 4, 5, rng.randint(2, nmax)])
+        m = rng.choice([1, 2, 3, rng.randint(1, mmax)])
+        dscore_case(n, m)
+    # the large end: many forecasts
+    for n, m in [(60, 1), (150, 1), (100, 2), (40, 5)] + ([(400, 1), (300, 2), (80, 12)] if thorough else []):
+        for style in ("perfect", "inverse", "plain", None):
+            dscore_case(n, m, style)
+
     # ------------------------------------------------------------------
     # 3. pit: correspondence with recorded jitter + range / monotonicity / pseudo flag
-    def call_pit(obs, ens, random, cst, censor, seed):
+    def call_pit(obs, ens, random, cst, censor, seed, obs_as_column=False):
         cm.mark({"call": "metrics.pit", "obs": obs, "ens": ens, "random": random, "cst": cst, "censor": censor})
+
+        def once():
+            o = np.array(obs, dtype=np.float64)
+            pits, sudo = metrics.pit(o.reshape(len(obs), 1) if obs_as_column else o,
+                                     np.array(ens, dtype=np.float64).reshape(len(obs), -1),
+                                     random=random, cst=cst, censor=censor)
+            return [float(x) for x in pits], [bool(x) for x in sudo]
         with Recorder(seed) as rec:
-            try:
-                with np.errstate(all="ignore"):
-                    pits, sudo = metrics.pit(np.array(obs, dtype=np.float64),
-                                             np.array(ens, dtype=np.float64).reshape(len(obs), -1),
-                                             random=random, cst=cst, censor=censor)
-                out = ([float(x) for x in pits], [bool(x) for x in sudo])
-            except ValueError:
-                out = None
+            out, err = guarded(once)
+        rec.error = err
         return out, rec
 
     mpit = 24
-    for it in range(ctx.scale(260, 4000)):
-        n = rng.choice([1, 2, 3, rng.randint(1, 8)])
-        m = rng.choice([1, 2, 3, 11, 22, rng.randint(1, mpit)])
-        random = rng.random() < 0.5
+
+    def pit_case(n, m, random, obs_as_column=False):
         cst = rng.choice([0.3, 0.0, 0.5, 0.25, round(rng.uniform(0, 0.5), 3)])
         above_cap = rng.random() < 0.05
         if above_cap:
@@ -1355,7 +1500,7 @@ def run(ctx):
         elif nan_mode < 0.18 and not random:
             ens[rng.randrange(n)][rng.randrange(m)] = float("nan")
             has_nan = True
-        out, rec = call_pit(obs, ens, random, cst, censor, rng.randrange(2 ** 31))
+        out, rec = call_pit(obs, ens, random, cst, censor, rng.randrange(2 ** 31), obs_as_column)
         valid = [i for i in range(n) if not math.isnan(obs[i]) and not all(math.isnan(v) for v in ens[i])]
         nforc = len(valid)
         dobs, dens = [], []
@@ -1374,23 +1519,30 @@ def run(ctx):
             replay_only = False
         replay = {"call": "metrics.pit", "obs": obs, "ens": ens, "random": random, "cst": cst,
                   "censor": censor, "result": out}
+        if obs_as_column:
+            replay["obs_held_as"] = f"[{n},1] column"
         res = "None" if out is None else f"(Some ({flist(out[0])}, {blist(out[1])}))"
         idx = None
-        if not replay_only:
+        if n * m > 2000:
+            ctx.count(("pit-oracle-only", random, n, m, has_nan, above_cap))     # too large a term for the model run
+        elif not replay_only:
             idx = add(f"CPit {cm.coq_bool(random)} {fl(cst)} {fl(censor)} {flist(obs)} {fmat(ens)} "
                       f"{flist(dobs)} {fmat(dens)} {res}", replay,
                       ("pit", random, min(n, 3), min(m, 3), m in (11, 22), has_nan, above_cap, out is None,
                        cst in (0.0, 0.5)))
         if out is None:
             if nforc > 0:
-                fail(idx, "C10/pit/valid-input-rejected", "pit raised on valid data", replay)
-            continue
+                fail(idx, "C10/pit/valid-input-rejected",
+                     f"pit raised {rec.error} on valid data ({nforc} valid forecasts x {m} members, random={random})",
+                     dict(replay, raised=rec.error))
+            return
         pits, sudo = out
-        if len(pits) != nforc:
-            fail(idx, "C10/pit/shape", f"{len(pits)} PIT values for {nforc} valid forecasts", replay)
-            continue
+        if len(pits) != nforc or len(sudo) != nforc:
+            fail(idx, "C10/pit/shape", f"{len(pits)} PIT values / {len(sudo)} flags for {nforc} valid forecasts",
+                 replay)
+            return
         if above_cap:
-            continue
+            return
         for k, i in enumerate(valid):
             row = ens[i]
             if any(math.isnan(v) for v in row):
@@ -1421,17 +1573,35 @@ def run(ctx):
             else:
                 continue
             break
+    # the small end of the quantifier on every run: 1, 2, 3 forecasts x 1, 2, 3 members, both options;
+    # 2 and 3 forecasts also with the observations as an [n,1] column
+    for n in SMALL_SIZES:
+        for m in SMALL_SIZES:
+            for random in (False, True):
+                for col in ((False, True) if n > 1 else (False,)):
+                    for _ in range(ctx.scale(2, 8)):
+                        pit_case(n, m, random, col)
+    for it in range(ctx.scale(260, 4000)):
+        n = rng.choice([1, 2, 3, rng.randint(1, 8)])
+        m = rng.choice([1, 2, 3, 11, 22, rng.randint(1, mpit)])
+        pit_case(n, m, rng.random() < 0.5)
+    # the large end: several hundred forecasts / members
+    for n, m in [(300, 3), (2, 400), (40, 40)] + ([(1500, 5), (3, 3000), (250, 250)] if thorough else []):
+        for random in (False, True):
+            pit_case(n, m, random)
     # the whole ladder 0..m members below, for every m up to 60 (implementation only)
     for m in range(1, ctx.scale(41, 121)):
         for random in (False, True):
             cst = rng.choice([0.3, 0.0, 0.5])
             obs = [0.5] * (m + 1)
             ens = [[0.0] * k + [1.0] * (m - k) for k in range(m + 1)]
-            out, _ = call_pit(obs, ens, random, cst, 0.0, 1)
+            out, rec = call_pit(obs, ens, random, cst, 0.0, 1)
             ctx.count(("pit-ladder", random, min(m, 3)))
             replay = {"call": "metrics.pit", "obs": obs, "ens": ens, "random": random, "cst": cst, "censor": 0.0}
             if out is None:
-                fail(None, "C10/pit/valid-input-rejected", "pit raised on valid data", replay)
+                fail(None, "C10/pit/valid-input-rejected",
+                     f"pit raised {rec.error} on valid data ({m + 1} forecasts x {m} members, random={random})",
+                     dict(replay, raised=rec.error))
                 continue
             pits = out[0]
             if not all(0.0 <= p <= 1.0 for p in pits):
@@ -1476,39 +1646,52 @@ def run(ctx):
 
     nsamp_max = ctx.scale(400, 1200)
     e3_points, e3_replays, e3_max = [], [], ctx.scale(6, 40)
-    table_ok = bool(np.all((metrics.CVM_TABLE >= 0) & (metrics.CVM_TABLE <= 1)))
+    table_ok, _ = guarded(lambda: bool(np.all((metrics.CVM_TABLE >= 0) & (metrics.CVM_TABLE <= 1))))
     ctx.notes["cvm_table_in_unit_interval"] = table_ok
-    for it in range(ctx.scale(150, 1500)):
-        n = rng.choice([1, 2, 3, 5, 10, 12, 55, rng.randint(1, 40), rng.randint(1, nsamp_max)])
+
+    def call_unif(which, x):
+        """((statistic, p-value), None) or (None, error text) of one uniformity test on the sample x"""
+        name = "cramer_von_mises_test" if which == "cvm" else "anderson_darling_test"
+        cm.mark({"call": "metrics." + name, "data": x})
+        return guarded(two_floats, getattr(metrics, name), np.array(x, dtype=np.float64))
+
+    def rejected_valid(which, x, err, idx=None, why=""):
+        name = "cramer_von_mises_test" if which == "cvm" else "anderson_darling_test"
+        fail(idx, f"C10/{which}/valid-sample-rejected",
+             f"{name} raised {err} on {len(x)} value(s) in (0,1){why}",
+             {"call": "metrics." + name, "data": x, "raised": err})
+
+    def unif_case(n):
         x, kind = gen_unit_sample(n)
-        arr = np.array(x, dtype=np.float64)
-        cm.mark({"call": "metrics.cramer_von_mises_test", "data": x})
-        stat, p = metrics.cramer_von_mises_test(arr.copy())
-        stat, p = float(stat), float(p)
-        replay = {"call": "metrics.cramer_von_mises_test", "data": x, "stat": stat, "pvalue": p}
-        idx = None
-        if n <= ctx.scale(120, 400):
-            idx = add(f"CCvm {flist(x)} {fl(stat)} {fl(p)}", replay, ("cvm", kind, min(n, 6), n > 50))
-        else:
-            ctx.count(("cvm-oracle-only", kind))
-        want = cvm_exact(x)
-        if not abs(Fr(stat) - want) <= Fr(1, 10 ** 9) * max(1, want):
-            fail(idx, "C10/cvm/statistic", f"CvM statistic {stat!r}, textbook formula {float(want)!r} (n={n})", replay)
-        if not (0.0 <= p <= 1.0):
-            fail(idx, "C10/cvm/pvalue-out-of-range", f"CvM p-value {p!r} (n={n}, statistic {stat!r})", replay)
         y = list(x)
         rng.shuffle(y)
-        s2, p2 = metrics.cramer_von_mises_test(np.array(y))
-        if not (abs(float(s2) - stat) <= 1e-12 * max(1, abs(stat)) and abs(float(p2) - p) <= 1e-9):
-            fail(idx, "C10/cvm/order-dependent", f"CvM ({stat!r},{p!r}) becomes ({float(s2)!r},{float(p2)!r}) "
-                 "after shuffling the sample", dict(replay, shuffled=y))
+        r, err = call_unif("cvm", x)
+        if err is not None:
+            ctx.count(("cvm-raises", kind, min(n, 6)))
+            rejected_valid("cvm", x, err)
+        else:
+            stat, p = r
+            replay = {"call": "metrics.cramer_von_mises_test", "data": x, "stat": stat, "pvalue": p}
+            idx = None
+            if n <= ctx.scale(120, 400):
+                idx = add(f"CCvm {flist(x)} {fl(stat)} {fl(p)}", replay, ("cvm", kind, min(n, 6), n > 50))
+            else:
+                ctx.count(("cvm-oracle-only", kind))
+            want = cvm_exact(x)
+            if not abs(Fr(stat) - want) <= Fr(1, 10 ** 9) * max(1, want):
+                fail(idx, "C10/cvm/statistic", f"CvM statistic {stat!r}, textbook formula {float(want)!r} (n={n})",
+                     replay)
+            if not (0.0 <= p <= 1.0):
+                fail(idx, "C10/cvm/pvalue-out-of-range", f"CvM p-value {p!r} (n={n}, statistic {stat!r})", replay)
+            r2, err2 = call_unif("cvm", y)
+            if err2 is not None:
+                rejected_valid("cvm", y, err2, idx, " (the sample in another order)")
+            elif not (abs(r2[0] - stat) <= 1e-12 * max(1, abs(stat)) and abs(r2[1] - p) <= 1e-9):
+                fail(idx, "C10/cvm/order-dependent", f"CvM ({stat!r},{p!r}) becomes ({r2[0]!r},{r2[1]!r}) "
+                     "after shuffling the sample", dict(replay, shuffled=y))
         # Anderson-Darling on the same sample
-        cm.mark({"call": "metrics.anderson_darling_test", "data": x})
-        try:
-            a, pa = metrics.anderson_darling_test(arr.copy())
-            a, pa = float(a), float(pa)
-        except ValueError:
-            a = pa = None
+        r, err = call_unif("ad", x)
+        a, pa = r if err is None else (None, None)
         areplay = {"call": "metrics.anderson_darling_test", "data": x, "stat": a, "pvalue": pa}
         aidx = None
         if n <= 60:
@@ -1516,8 +1699,8 @@ def run(ctx):
         else:
             ctx.count(("ad-oracle-only", kind))
         if a is None:
-            fail(aidx, "C10/ad/valid-sample-rejected", f"anderson_darling_test raised on {n} values in (0,1)", areplay)
-            continue
+            rejected_valid("ad", x, err, aidx)
+            return
         if n <= 8 and len(e3_points) < e3_max and 1e-4 < min(x) and max(x) < 1 - 1e-4 \
                 and _ad_branch_margins(n, a) and (1e-6 < pa < 1 - 1e-6 or pa in (0.0, 1.0)):
             e3_points.append((sorted(x), a, pa))
@@ -1527,40 +1710,57 @@ def run(ctx):
             fail(aidx, "C10/ad/statistic", f"AD statistic {a!r}, textbook formula {wanta!r} (n={n})", areplay)
         if not (0.0 <= pa <= 1.0):
             fail(aidx, "C10/ad/pvalue-out-of-range", f"AD p-value {pa!r} (n={n}, statistic {a!r})", areplay)
-        a2, pa2 = metrics.anderson_darling_test(np.array(y))
-        if not (abs(float(a2) - a) <= 1e-12 * max(1, abs(a)) and abs(float(pa2) - pa) <= 1e-12):
-            fail(aidx, "C10/ad/order-dependent", f"AD ({a!r},{pa!r}) becomes ({float(a2)!r},{float(pa2)!r}) "
+        r2, err2 = call_unif("ad", y)
+        if err2 is not None:
+            rejected_valid("ad", y, err2, aidx, " (the sample in another order)")
+        elif not (abs(r2[0] - a) <= 1e-12 * max(1, abs(a)) and abs(r2[1] - pa) <= 1e-12):
+            fail(aidx, "C10/ad/order-dependent", f"AD ({a!r},{pa!r}) becomes ({r2[0]!r},{r2[1]!r}) "
                  "after shuffling the sample", dict(areplay, shuffled=y))
+    # the small end of the quantifier on every run: samples of 1, 2, 3 values (every kind of sample is drawn)
+    for n in SMALL_SIZES:
+        for _ in range(ctx.scale(10, 40)):
+            unif_case(n)
+    for it in range(ctx.scale(150, 1500)):
+        unif_case(rng.choice([1, 2, 3, 5, 10, 12, 55, rng.randint(1, 40), rng.randint(1, nsamp_max)]))
+    # sizes at and between the columns of the table of p-values (the column nearest to n is used; two
+    # columns are equally near at 55, 65, ..., 625, ...), past its last column, and the large end
+    nsample = [int(v) for v in getattr(metrics, "CVM_NSAMPLE", [])] or [5, 1050]
+    edges = {nsample[0] - 1, nsample[0], nsample[-1], nsample[-1] + 1, nsample[-1] + 250}
+    for a, b in zip(nsample, nsample[1:]):
+        edges.update({(a + b) // 2, (a + b) // 2 + 1})
+    edges = sorted(v for v in edges if v >= 1)
+    for n in (edges if thorough else rng.sample(edges, 12) + [4, 55, 625, nsample[-1] + 1, nsample[-1] + 250]):
+        unif_case(n)
     # regular samples of every size (where the p-value approximation is at its edge)
     for n in range(1, ctx.scale(121, 401)):
         for x in ([(i + 0.5) / n for i in range(n)], [(i + 1.0) / (n + 1) for i in range(n)]):
             ctx.count(("ad-regular", min(n, 4)))
-            try:
-                a, pa = metrics.anderson_darling_test(np.array(x))
-                a, pa = float(a), float(pa)
-            except ValueError:
-                fail(None, "C10/ad/valid-sample-rejected", f"anderson_darling_test raised on a regular sample n={n}",
-                     {"call": "metrics.anderson_darling_test", "data": x})
-                continue
-            if not (0.0 <= pa <= 1.0):
-                fail(None, "C10/ad/pvalue-out-of-range", f"AD p-value {pa!r} (regular sample, n={n}, statistic {a!r})",
-                     {"call": "metrics.anderson_darling_test", "data": x, "stat": a, "pvalue": pa})
-            s, p = metrics.cramer_von_mises_test(np.array(x))
-            if not (0.0 <= float(p) <= 1.0):
-                fail(None, "C10/cvm/pvalue-out-of-range", f"CvM p-value {float(p)!r} (regular sample, n={n})",
+            r, err = call_unif("ad", x)
+            if err is not None:
+                rejected_valid("ad", x, err, None, " (regular sample)")
+            elif not (0.0 <= r[1] <= 1.0):
+                fail(None, "C10/ad/pvalue-out-of-range",
+                     f"AD p-value {r[1]!r} (regular sample, n={n}, statistic {r[0]!r})",
+                     {"call": "metrics.anderson_darling_test", "data": x, "stat": r[0], "pvalue": r[1]})
+            r, err = call_unif("cvm", x)
+            if err is not None:
+                rejected_valid("cvm", x, err, None, " (regular sample)")
+            elif not (0.0 <= r[1] <= 1.0):
+                fail(None, "C10/cvm/pvalue-out-of-range", f"CvM p-value {r[1]!r} (regular sample, n={n})",
                      {"call": "metrics.cramer_von_mises_test", "data": x})
     # E3 always includes the ten mid-points (where the pinned p-value exceeds 1)
     x10 = [(i + 0.5) / 10 for i in range(10)]
-    a10, p10 = metrics.anderson_darling_test(np.array(x10))
-    e3_points.append((x10, float(a10), float(p10)))
-    e3_replays.append({"call": "metrics.anderson_darling_test", "data": x10, "stat": float(a10),
-                       "pvalue": float(p10)})
+    r, err = call_unif("ad", x10)
+    if err is not None:
+        rejected_valid("ad", x10, err, None, " (the ten mid-points)")
+    else:
+        e3_points.append((x10, r[0], r[1]))
+        e3_replays.append({"call": "metrics.anderson_darling_test", "data": x10, "stat": r[0], "pvalue": r[1]})
     # rejection by the Anderson-Darling test
-    for it in range(ctx.scale(80, 600)):
-        n = rng.choice([1, 2, 3, rng.randint(1, 40)])
+    BAD_KINDS = ["neg", "above", "nan", "negtiny", "abovetiny", "inf", "several"]
+
+    def reject_case(n, bad, pos, model=True):
         x, kind = gen_unit_sample(n)
-        bad = rng.choice(["neg", "above", "nan", "negtiny", "abovetiny", "inf", "several"])
-        pos = rng.randrange(n)
         if bad == "neg":
             x[pos] = -rng.random()
         elif bad == "above":
@@ -1577,23 +1777,38 @@ def run(ctx):
             for _ in range(3):
                 x[rng.randrange(n)] = rng.choice([float("nan"), -0.5, 1.5])
         cm.mark({"call": "metrics.anderson_darling_test", "data": x})
-        try:
-            with np.errstate(all="ignore"):
-                r = metrics.anderson_darling_test(np.array(x))
-            raised = False
-        except ValueError:
-            raised = True
-        replay = {"call": "metrics.anderson_darling_test", "data": x, "raised": raised}
-        idx = add(f"CAdCheck {flist(x)} {cm.coq_bool(raised)}", replay, ("ad-reject", bad, min(n, 4)))
+        # rejected = the call raises (whatever the exception type)
+        r, err = guarded(metrics.anderson_darling_test, np.array(x))
+        raised = err is not None
+        replay = {"call": "metrics.anderson_darling_test", "data": x, "raised": raised, "error": err}
+        idx = None
+        if model:
+            idx = add(f"CAdCheck {flist(x)} {cm.coq_bool(raised)}", replay, ("ad-reject", bad, min(n, 4)))
+        else:
+            ctx.count(("ad-reject-oracle-only", bad, n, pos in (0, n - 1)))
         if not raised:
             fail(idx, "C10/ad/accepts-out-of-range",
-                 f"anderson_darling_test accepted data outside [0,1] or NaN ({bad}) and returned {r}", replay)
+                 f"anderson_darling_test accepted data outside [0,1] or NaN ({bad} at position {pos} of {n} "
+                 f"values) and returned {r}", replay)
+
+    # the small end on every run: samples of 1, 2, 3 values, every kind of bad value at every position
+    for n in SMALL_SIZES:
+        for bad in BAD_KINDS:
+            for pos in range(n):
+                reject_case(n, bad, pos)
+    for it in range(ctx.scale(80, 600)):
+        n = rng.choice([1, 2, 3, rng.randint(1, 40)])
+        reject_case(n, rng.choice(BAD_KINDS), rng.randrange(n))
+    # every position of the bad value in larger samples (the sample is sorted by the implementation before
+    # it is examined: where a NaN / an outlier ends up depends on where it started)
+    for n in [7, 32] + ([100, 400] if thorough else [rng.randint(40, 120)]):
+        for bad in ("nan", "neg", "above", "negtiny", "abovetiny", "inf"):
+            for pos in range(n):
+                reject_case(n, bad, pos, model=False)
 
     # ------------------------------------------------------------------
     # 5. alpha
-    for it in range(ctx.scale(60, 600)):
-        n = rng.choice([1, 2, 5, 10, rng.randint(1, 60)])
-        m = rng.choice([1, 2, 5, rng.randint(1, 30)])
+    def alpha_case(n, m, obs_as_column=False):
         step = 0.25
         style = rng.choice(["random", "reliable", "biased", "censored"])
         obs, ens = [], []
@@ -1616,21 +1831,25 @@ def run(ctx):
             ens.append(row)
         for typ in ("CV", "KS", "AD"):
             cm.mark({"call": "metrics.alpha", "obs": obs, "ens": ens, "type": typ})
+
+            def once():
+                o = np.array(obs, dtype=np.float64)
+                st, pv, sudo = metrics.alpha(o.reshape(n, 1) if obs_as_column else o,
+                                             np.array(ens, dtype=np.float64).reshape(n, m), type=typ)
+                return float(st), float(pv), [bool(b) for b in sudo]
             with Recorder(rng.randrange(2 ** 31)) as rec:
-                try:
-                    with np.errstate(all="ignore"):
-                        st, pv, sudo = metrics.alpha(np.array(obs), np.array(ens).reshape(n, m), type=typ)
-                    st, pv, sudo = float(st), float(pv), [bool(b) for b in sudo]
-                    err = None
-                except ValueError as e:
-                    err = str(e)
+                r, err = guarded(once)
             replay = {"call": "metrics.alpha", "obs": obs, "ens": ens, "type": typ}
+            if obs_as_column:
+                replay["obs_held_as"] = f"[{n},1] column"
             if err is not None:
-                fail(None, f"C10/alpha/{typ}-raised", f"alpha(type={typ}) raised: {err}", replay)
+                fail(None, f"C10/alpha/{typ}-raised",
+                     f"alpha(type={typ}) raised {err} on {n} forecasts x {m} members", dict(replay, raised=err))
                 continue
+            st, pv, sudo = r
             replay.update(stat=st, pvalue=pv)
             idx = None
-            if typ == "CV":
+            if typ == "CV" and n * m <= 2000:
                 jit = rec.jitters(n, m)
                 if jit is not None:
                     idx = add(f"CAlphaCV {flist(obs)} {fmat(ens)} {flist([float(v) for v in jit[0]])} "
@@ -1641,6 +1860,41 @@ def run(ctx):
             if not (0.0 <= pv <= 1.0):
                 fail(idx, f"C10/alpha/{typ}-pvalue-out-of-range",
                      f"alpha(type={typ}) p-value {pv!r} (statistic {st!r}, {n} forecasts x {m} members)", replay)
+            want = [(o <= 0.0) and any(v <= 0.0 for v in row) for o, row in zip(obs, ens)]
+            if sudo != want:
+                fail(idx, "C10/alpha/pseudo-flag",
+                     f"alpha(type={typ}) returns the pseudo flags {sudo}, but the observation and at least one "
+                     f"member are at or below 0 for {want} ({n} forecasts x {m} members)", dict(replay, flags=sudo))
+
+    # the small end of the quantifier on every run: 1, 2, 3 forecasts x 1, 2, 3 members, the three tests;
+    # 2 and 3 forecasts also with the observations as an [n,1] column
+    for n in SMALL_SIZES:
+        for m in SMALL_SIZES:
+            for col in ((False, True) if n > 1 else (False,)):
+                for _ in range(ctx.scale(2, 8)):
+                    alpha_case(n, m, col)
+    for it in range(ctx.scale(60, 600)):
+        n = rng.choice([1, 2, 5, 10, rng.randint(1, 60)])
+        m = rng.choice([1, 2, 5, rng.randint(1, 30)])
+        alpha_case(n, m)
+    # the large end: several hundred forecasts (past the last column of the table of p-values in the thorough tier)
+    for n, m in [(300, 3), (625, 1), (40, 40)] + ([(1051, 2), (2000, 1), (200, 200)] if thorough else []):
+        alpha_case(n, m)
+
+    # Observed, NOT asserted: shapes that the docstrings admit ("[n] or [n,1]", "[n], [n,1] or [n,p]") but
+    # the property's text (values; n >= 2 forecasts) does not speak of.  What the implementation does with
+    # them is recorded in the evidence.
+    o3, s3 = np.array([1.0, 3.0, 2.0]), np.array([[1.0, 2.0], [3.0, 4.0], [2.0, 3.0]])
+    for name, call in [
+            ("dscore(obs [n,1], sim [n,p])", lambda: float(metrics.dscore(o3.reshape(3, 1), s3))),
+            ("dscore(obs [n], sim [n])", lambda: float(metrics.dscore(o3, o3.copy()))),
+            ("pit(obs [1,1], ens [1,p])", lambda: [float(v) for v in metrics.pit(np.array([[1.0]]),
+                                                                                  np.array([[0.0, 2.0]]))[0]]),
+            ("alpha(obs [1,1], ens [1,p])", lambda: float(metrics.alpha(np.array([[1.0]]),
+                                                                        np.array([[0.0, 2.0]]))[1]))]:
+        r, err = guarded(call)
+        if err is not None or (isinstance(r, float) and math.isnan(r)):
+            ctx.notes.setdefault("documented_shapes_not_handled", {})[name] = err if err is not None else repr(r)
 
     # ------------------------------------------------------------------
     # 6. stored representations of the inputs and histories of caller-owned objects
